@@ -21,6 +21,9 @@ RTF_FONT_NAMES: Mapping[int, FontName] = FontMapping.get_font_number_to_name_map
 _PILLOW_VERSION = tuple(map(int, PILLOW_VERSION.split(".")[:2]))
 _PILLOW_REQUIRES_INT_SIZE = _PILLOW_VERSION < (10, 0)
 
+# Factor by which fonts are enlarged for measuring (see get_string_width)
+_MEASURE_OVERSAMPLING = 16
+
 
 def get_string_width(
     text: str,
@@ -61,8 +64,14 @@ def get_string_width(
     # Convert size to int for Pillow < 10.0.0 compatibility
     # (use ceiling for conservative pagination)
     size_param = int(math.ceil(font_size)) if _PILLOW_REQUIRES_INT_SIZE else font_size
-    font_obj = ImageFont.truetype(str(font_path), size=size_param)
-    width_px = font_obj.getlength(text)
+    # Glyph advances are rounded to 1/64 pixel at the size the font is loaded
+    # with. At small sizes that rounding exceeds one percent of a narrow glyph, so
+    # the font is loaded at a multiple of the requested size and the result is
+    # scaled back: widths then scale linearly with the font size.
+    font_obj = ImageFont.truetype(
+        str(font_path), size=size_param * _MEASURE_OVERSAMPLING
+    )
+    width_px = font_obj.getlength(text) / _MEASURE_OVERSAMPLING
 
     conversions = {
         "px": lambda x: x,
